@@ -53,7 +53,8 @@ REQUIRED = ["sphere_checked", "cap_checked", "frustum_checked", "ss_intersection
             "sf_frustum_inside_sphere", "sf_h_below_r", "sf_h_above_r", "sf_axis_aligned",
             "sf_union_from_frustum", "integer_centres", "integer_sizes",
             "integer_sizes_cube_beyond_int64", "direction_near_axis", "micro_or_huge_sizes",
-            "sizes_as_numpy_scalars_or_0d_arrays", "rejected_call_before_get_volume"]
+            "sizes_as_numpy_scalars_or_0d_arrays", "rejected_call_before_get_volume",
+            "both_centres_small_integer_arrays"]
 FLOOR = {"quick": 3000, "thorough": 640000}
 SHARDS = {"quick": 8, "thorough": 16}
 
@@ -135,6 +136,23 @@ def execute(ctx, case):
         c = np.round(c)
         ctx.count("integer_centres")
     cin = c
+    small = case.get("int_centre") in ("array32", "array16")
+    if small:
+        # both centres on the integer grid, held in 32- or 16-bit integer arrays (voxel indices,
+        # integer nanometres): the second centre is the first plus an integer distance along a
+        # coordinate axis, so nothing about the geometry is rounded
+        dt = np.int32 if case["int_centre"] == "array32" else np.int16
+        lim = 2**31 - 1 if dt is np.int32 else 2**15 - 1
+        ax = np.zeros(3)
+        ax[int(abs(c[0])) % 3] = 1.0 if int(abs(c[1])) % 2 else -1.0
+        dist = float(np.round(case.get("d", case.get("h", 0.0))))
+        if np.abs(c).max() + dist >= lim or (("h" in case) and dist < 1):
+            small = False
+        else:
+            case = dict(case, u=ax.tolist(), **({"d": dist} if "d" in case else {}),
+                        **({"h": dist} if "h" in case else {}))
+            cin = c.astype(dt)
+            ctx.count("both_centres_small_integer_arrays")
     if case.get("int_centre") == "tuple":
         cin = tuple(int(v) for v in c)
     elif case.get("int_centre") == "array":
@@ -166,7 +184,7 @@ def execute(ctx, case):
             u = _dir(case)
             c2 = c + u * d
             dd = float(np.linalg.norm(c - c2))  # the distance the library will see
-            s1, s2 = VolSphere(cin, r1), VolSphere(c2, r2)
+            s1, s2 = VolSphere(cin, r1), VolSphere(c2.astype(cin.dtype) if small else c2, r2)
             ti = true_ss(r1, r2, dd)
             v1, v2 = 4 / 3 * np.pi * r1 ** 3, 4 / 3 * np.pi * r2 ** 3
             if r1 < r2:
@@ -191,6 +209,8 @@ def execute(ctx, case):
             far = case["far"]
             c2 = c + u * h
             hh = float(np.linalg.norm(c2 - c))
+            if small:
+                c2 = c2.astype(cin.dtype)
             fc = VolFrustumCone(cin, r1, c2, r2) if not far else VolFrustumCone(c2, r2, cin, r1)
             s = VolSphere(cin, r1)
             ti = true_sf(r1, r2, hh)
@@ -266,8 +286,8 @@ def draw(rng):
         near_axis = True
     base = {"r1": r1, "c": c, "u": dirv, "axis_aligned": axis_aligned, "near_axis": near_axis,
             "wide": bool(wide)}
-    if rng.random() < 0.2:
-        base["int_centre"] = str(rng.choice(["tuple", "array"]))
+    if rng.random() < 0.3:
+        base["int_centre"] = str(rng.choice(["tuple", "array", "array32", "array16"]))
     if rng.random() < 0.25:
         base["size_form"] = str(rng.choice(["np64", "zero_d"]))
     base["bad_call_first"] = bool(rng.random() < 0.4)
